@@ -44,6 +44,7 @@ def main() -> int:
     spec = core.from_jsonable(json.loads(args.spec))
     oneshot_only = not zoo.build(spec).incremental
     has_json = "json" in mutate.leaf_kinds(spec)
+    scan_pickle = mutate.scans_as_pickle(spec)
     stats = {"execs": 0, "skipped_excluded": 0, "rejected": 0}
     os.makedirs(args.out, exist_ok=True)
 
@@ -72,6 +73,9 @@ def main() -> int:
         if has_json and (
             (c06.EXCLUDE_D3 and mutate.naive_depth(body) > c06.D3_SAFE_DEPTH) or (c06.EXCLUDE_D3B and mutate.max_digit_run(body) > c06.D3B_SAFE_DIGITS)
         ):
+            stats["skipped_excluded"] += 1
+            return
+        if scan_pickle and mutate.pickle_put_index_max(body) > mutate.PICKLE_MEMO_INDEX_MAX:
             stats["skipped_excluded"] += 1
             return
         for layer, case in make_cases(data):
